@@ -1354,6 +1354,13 @@ ssize_t ICACHE_FLASH_ATTR mqtt_unpack_publish_response(struct mqtt_response *mqt
     response->topic_name_size = __mqtt_unpack_uint16(buf);
     buf += 2;
     response->topic_name = buf;
+
+    /* the topic (and the packet id for QoS > 0) must fit in the remaining length */
+    if ((uint32_t)response->topic_name_size + 2 + (response->qos_level > 0 ? 2 : 0) >
+        mqtt_response->fixed_header.remaining_length) {
+        return MQTT_ERROR_MALFORMED_RESPONSE;
+    }
+
     buf += response->topic_name_size;
 
     if (response->qos_level > 0) {
